@@ -129,4 +129,35 @@ AlgWalk(T, in, p) ==
        ELSE LET rest == AlgWalk(T, in, p \o <<g.sub>>) IN
             IF rest.err THEN rest ELSE [err |-> FALSE, levels |-> <<Level(XVal(in, p), g.sub, g.kept)>> \o rest.levels]
 AlgSelect(T, in) == AlgWalk(T, AsLoaded(in), << >>)
+
+\* The default config file on the real route.  get_defaults (_core.py:1036-1054) parses the file ON ITS OWN
+\* (_parse_common with defaults = FALSE, fail_no_subcommand = FALSE): handle_subcommands -> get_subcommands:711-727 runs on
+\* the file's content alone, level by level along the path it chooses there -- the explicit key if the file has one, else
+\* the FIRST declared sub-command that has a section -- and deletes the sibling sections when more than one is present.
+\* What survives is what every later stage sees (finding C17 dcf:first-section-only; the explicit-key half is the
+\* CfgKeyNamesOther deviation again).
+RECURSIVE DcfKept(_, _, _)
+Below(in, q) == {r \in in.csec : IsPrefix(q, r)}
+DcfKept(T, in, p) ==
+  IF T[p].ch = << >> THEN {}
+  ELSE LET sibs == {j \in 1..Len(T[p].ch) : (p \o <<T[p].ch[j]>>) \in in.csec}
+           sub  == IF in.csel[p] # None THEN in.csel[p] ELSE IF sibs # {} THEN T[p].ch[Min(sibs)] ELSE None
+           kept == IF Cardinality(sibs) > 1 THEN {j \in sibs : T[p].ch[j] = sub} ELSE sibs
+       IN UNION {IF T[p].ch[j] = sub THEN {p \o <<sub>>} \cup DcfKept(T, in, p \o <<sub>>) ELSE Below(in, p \o <<T[p].ch[j]>>) : j \in kept}
+DcfLoaded(T, in) == LET keep == DcfKept(T, in, << >>) \cup (in.csec \cap {<< >>}) IN
+                    [in EXCEPT !.csec = keep,
+                               !.csel = [p \in DOMAIN in.csel |-> IF p = << >> \/ p \in keep THEN in.csel[p] ELSE None]]
+DcfFirstSectionOnly(T, in) == in.dcf /\ DcfLoaded(T, in).csec # AsLoaded(in).csec
+\* the file loses something when it is loaded (either half of the pruning)
+DcfPrunes(T, in) == in.dcf /\ (DcfLoaded(T, in).csec # in.csec \/ DcfLoaded(T, in).csel # in.csel)
+\* Where the class is NOT transcribed further (finding C17 dcf:subcommand-settings is THIS input class):
+\*  - the environment is on (sub-parsers parse the environment with their own defaults, look their parent's file up again ...);
+\*  - the pruning removes content two or more levels deep: handle_subcommands:796-803 makes the chosen sub-parser look its
+\*    PARENT's file up again (parent_parsers_context -> _get_default_config_files:975-978 -> _load_config_parser_mode:725-726
+\*    takes the section under the sub-command's name from the raw document), which brings part of it back.
+DcfDeepLoss(T, in) == LET L == DcfLoaded(T, in) IN
+                        \/ \E q \in in.csec \ L.csec : Len(q) >= 2
+                        \/ \E p \in DOMAIN in.csel : p # << >> /\ in.csel[p] # None /\ L.csel[p] = None
+DcfOpaque(T, in) == DcfSubSettings(in) /\ (in.env \/ DcfDeepLoss(T, in))
+AlgSelectDcf(T, in) == AlgWalk(T, DcfLoaded(T, in), << >>)
 =============================================================================
